@@ -445,8 +445,15 @@ fn cuts_slp(beh: &Beh, built: &Built, stride: usize, deadline: Duration, sink: &
 	let n = built.bytes.len();
 	let shared = std::sync::Arc::new(built.bytes.clone());
 	let mut dog = Watchdog::new();
-	let mut cut = 0;
-	while cut < n {
+	// every offset of the head (signature, raw header, payload table, start of Game Start) and of the tail (from the
+	// first Game End event on: Game End, its duplicate, the metadata element with all its keys and values, the closing
+	// braces); strided in between
+	let first_end = beh.hist.iter().position(|e| e.k == "ge").and_then(|i| built.ev_offs.get(i).copied()).unwrap_or(n);
+	let head_to = built.raw_start + 40;
+	for cut in 0..n {
+		if !(cut % stride == 0 || cut < head_to || cut + 8 >= first_end) {
+			continue;
+		}
 		for skip in [false, true] {
 			for hash in [false, true] {
 				if hash && cut % 3 != 0 {
@@ -471,7 +478,6 @@ fn cuts_slp(beh: &Beh, built: &Built, stride: usize, deadline: Duration, sink: &
 				}
 			}
 		}
-		cut += stride;
 	}
 }
 
@@ -609,7 +615,7 @@ pub fn cmd_cuts(a: &Args) {
 	let bulk = a.num("slpp-bulk-stride", 64) as usize;
 	let arrow_stride = a.num("slpp-arrow-stride", 1) as usize;
 	let deadline = Duration::from_millis(a.num("deadline-ms", 5000));
-	let comps: Vec<Comp> = if a.has("all-comps") { Comp::all().to_vec() } else { vec![Comp::None, Comp::Zstd] };
+	let comps: Vec<Comp> = if a.has("all-comps") { Comp::all().to_vec() } else { vec![Comp::Lz4, Comp::None, Comp::Zstd] };
 	let hangs = std::sync::atomic::AtomicUsize::new(0);
 	let for_slpp: std::sync::Mutex<Vec<(Beh, Built)>> = std::sync::Mutex::new(vec![]);
 	let n = crate::for_each_tagged(a.req("in"), "BEH", threads, stride, max, |idx, v| {
